@@ -10,6 +10,7 @@ path).  It is the numeric sibling of fmt.Evaluator and is used by the closed-for
 """
 import ast
 import itertools
+import re
 from .model import AnalysisError, norm, dotted, walk_no_nested, parent
 
 MAX_PATHS = 256
@@ -1078,6 +1079,13 @@ class SymExec:
                     truth = same if isinstance(test.ops[0], (ast.Is, ast.Eq)) else not same
                     if truth != val:
                         continue
+                if isinstance(test, ast.Compare) and len(test.ops) == 1 and isinstance(test.ops[0], (ast.Is, ast.IsNot)) and \
+                   isinstance(test.left, ast.Name) and re.fullmatch(r'_obj\d+', test.left.id) and \
+                   isinstance(test.comparators[0], ast.Constant) and test.comparators[0].value is None:
+                    if isinstance(test.ops[0], ast.IsNot) != val:
+                        continue    # an object created on this path is not None
+                    out += self._block(blk, [p.fork()])
+                    continue
                 if val and ((isinstance(test, ast.Call) and isinstance(test.func, ast.Name) and test.func.id in
                              ('set', 'list', 'dict', 'tuple') and not test.args and not test.keywords) or
                             (isinstance(test, (ast.List, ast.Tuple, ast.Set)) and not test.elts) or
@@ -1304,6 +1312,21 @@ class SymExec:
                 p2.events.append(('yield', v, st, p2.loops))
                 out.append(p2)
             return out
+        if isinstance(st, ast.Expr) and isinstance(st.value, ast.YieldFrom) and self.bind_loops and \
+           isinstance(st.value.value, ast.Call) and not getattr(st, '_yf_done', False):
+            g_ = self._callee(self.subst(st.value.value, p.env)) if isinstance(self.subst(st.value.value, p.env), ast.Call) else None
+            if g_ is not None and any(isinstance(n, (ast.Yield, ast.YieldFrom)) for n in walk_no_nested(g_.node)):
+                # `yield from self._gen(...)` hands on every value of the sub-generator: for v in self._gen(...): yield v
+                nm_ = '__yf%d' % self._nloops
+                loop = ast.For(target=ast.Name(id=nm_, ctx=ast.Store()), iter=st.value.value,
+                               body=[ast.Expr(value=ast.Yield(value=ast.Name(id=nm_, ctx=ast.Load())))], orelse=[])
+                ast.copy_location(loop, st)
+                ast.copy_location(loop.body[0], st)
+                ast.fix_missing_locations(loop)
+                res = self._stmt(loop, p)
+                for q_ in res:
+                    q_.env.pop(nm_, None)
+                return res
         if isinstance(st, ast.Expr) and isinstance(st.value, ast.YieldFrom):
             out = []
             for v, p2 in self.eval_expr(st.value.value, p):
